@@ -12,6 +12,7 @@
     and an injected MTA-STS fetch; the recorded traces are validated against
     RemoteTrace.tla, which evaluates the same predicates on what the servers saw.
 """
+import concurrent.futures
 import json
 import os
 
@@ -173,26 +174,30 @@ def run(ctx, replay):
                                         tail=GEN_TAIL)),
                       # every configuration of the 1-MX space with every history of 2 messages
                       ("gen-all1", cfg(nmx=(1,), kinds="Kinds3", maxmsgs=2, gen=True, tail=GEN_TAIL))]
-        for name, text in focus:
-            g = ctx.tlc("Remote", None, name=name, workers=4, timeout=1800, cfg_text=text, heap="4g")
+        n1, n2 = (6000, 6000) if thorough else (450, 450)
+        jobs = [(name, dict(workers=2, timeout=1800, cfg_text=text, heap="4g")) for name, text in focus]
+        jobs += [("sim1", dict(workers=1, timeout=1800, simulate=n1, depth=60, heap="4g",
+                               cfg_text=cfg(nmx=(1,), kinds="Kinds5", tlsa="SmallTlsa", cn=ALL_CN, gen=True,
+                                            tail=GEN_TAIL))),
+                 ("sim1b", dict(workers=1, timeout=1800, simulate=n1 // 2, depth=60, heap="4g",
+                                cfg_text=cfg(nmx=(1,), kinds="Kinds5", gen=True, tail=GEN_TAIL))),
+                 ("sim2", dict(workers=1, timeout=1800, simulate=n2, depth=60, heap="4g",
+                               cfg_text=cfg(nmx=(2,), stlscert="SmallStlsCert", tlsa="SmallTlsa", kinds="Kinds4",
+                                            dnsfail=False, slow=("TRUE", "FALSE"), gen=True, tail=GEN_TAIL)))]
+        # independent TLC runs: side by side (at most 4 JVMs at a time)
+        with concurrent.futures.ThreadPoolExecutor(max_workers=4) as ex:
+            futs = {name: ex.submit(ctx.tlc, "Remote", None, name=name, **kw) for name, kw in jobs}
+            res = {name: f.result() for name, f in futs.items()}
+        for name, _ in jobs:
+            g = res[name]
             if not g["ok"]:
                 raise vlib.Infra("behaviour generation %s failed: %s %s" % (name, g["invariant"], g["error"]))
             got = behaviours_from(g)
-            ctx.cov["exhaustive_" + name] = len(got)
+            if not name.startswith("sim"):
+                ctx.cov["exhaustive_" + name] = len(got)
             if name == "gen-all1" and len(got) > 15000:
                 got = vlib.sample(ctx.rng, got, 15000)     # replayed sample of the complete enumeration
             behs += got
-        n1, n2 = (6000, 6000) if thorough else (450, 450)
-        sims = [("sim1", n1, cfg(nmx=(1,), kinds="Kinds5", tlsa="SmallTlsa", cn=ALL_CN, gen=True, tail=GEN_TAIL)),
-                ("sim1b", n1 // 2, cfg(nmx=(1,), kinds="Kinds5", gen=True, tail=GEN_TAIL)),
-                ("sim2", n2, cfg(nmx=(2,), stlscert="SmallStlsCert", tlsa="SmallTlsa", kinds="Kinds4",
-                                 dnsfail=False, slow=("TRUE", "FALSE"), gen=True, tail=GEN_TAIL))]
-        for name, n, text in sims:
-            g = ctx.tlc("Remote", None, name=name, workers=1, timeout=1800, simulate=n, depth=60, cfg_text=text,
-                        heap="4g")
-            if not g["ok"]:
-                raise vlib.Infra("behaviour simulation %s failed: %s %s" % (name, g["invariant"], g["error"]))
-            behs += behaviours_from(g)
         behs = dedup(behs)
         if not behs:
             raise vlib.Infra("TLC produced no behaviours")
